@@ -2,3 +2,16 @@
 model(clause, feats, point, observed, expected, ctx) -> bool that is True only when the
 observed output is exactly what the recorded defective behaviour predicts for this point."""
 import numpy as np
+
+
+def arma_truncated_myw(clause, feats, point, obs, exp, ctx):
+    """arma_estimate truncates the modified Yule-Walker vector to `lag` values instead of lag-Q+P
+    (arma.py: Y.resize(lag)).  For P <= 4 (Marple solver) and lag - P <= P the covariance fit has no more
+    equations than unknowns, its residual is zero and the recursion divides by it: the MA part and the
+    variance come out non-finite.  Matches only that situation: counts are right, output non-finite."""
+    P, Q, lag = int(point['P']), int(point['Q']), int(point['lag'])
+    if not (P <= 4 and lag - P <= P and P != Q):
+        return False
+    na, nb, mr, rho = obs
+    nonfinite = not np.isfinite(np.asarray(complex(rho) if not isinstance(rho, str) else np.nan))
+    return int(na) == P and int(nb) == Q and nonfinite
